@@ -384,6 +384,10 @@ func reifyValue(
 			ctx := val.Context()
 			return reflect.Value{}, raisePathErr(err, val.meta(), "", ctx.path("."))
 		}
+		// the field's validators see the value the interface is going to hold
+		if err := runValidators(reified, opts.validators); err != nil {
+			return reflect.Value{}, raiseValidation(val.Context(), val.meta(), "", err)
+		}
 		v := reflect.ValueOf(reified)
 		if t == baseType {
 			return v, nil
